@@ -4,22 +4,36 @@ from vlib import std, hbuild, coq, recipes, common
 
 PID = "C48"
 META = {
-    "text": "Theorems (Properties_C48.v) are about a Gallina transcription of src/sbuf/SBuf.cc + MemBlob.cc: a heap of "
-            "ref-counted blobs and SBuf objects (blob, off, len) with the real copy-on-write / in-place-append / "
-            "reserve / Locker logic. They state, for ALL heaps satisfying the representation invariant and ALL "
-            "operation sequences over any number of variables, that each operation changes the target's contents "
-            "like the corresponding list operation, leaves every other variable's contents unchanged (self-aliasing "
-            "arguments included), keeps the invariant, and throws with contents unchanged beyond the size limits. "
-            "The model is tied to the code by a differential run of the extracted model against SBuf.cc/MemBlob.cc "
-            "compiled from the working tree under ASan+UBSan (contents of every variable, return values and "
-            "off/len/blob size/capacity/lock count after every operation), and the code's answers are checked "
-            "against an independent Python bytes shadow (std::string semantics).",
-    "note": "Trusted: Coq kernel, extraction, gen/gen_sbuf.cc, harness/h_sbuf.cc (its memAllocBuf wrapper uses the "
-            "size classes of src/mem/old_api.cc), ml/run_sbuf.ml glue. The allocator is a Section variable with the "
-            "contract n <= alloc_cap n. The hand-written SbufModel.v is validated against the code only on the "
-            "generated sequences.",
-    "technique": "Coq proof (representation invariant + per-operation refinement lemmas, lifted to operation sequences by "
-                 "induction) + extracted-model differential correspondence under ASan + Python shadow oracle",
+    "text": "Theorems (Properties_C48.v, 10, closed under the global context) are about a Gallina transcription of "
+            "src/sbuf/SBuf.cc + MemBlob.cc: a heap of ref-counted blobs and SBuf objects (blob, off, len) with the real "
+            "copy-on-write / in-place-append / reserve / Locker logic, RefCount lock/unlock made explicit, pointer "
+            "arguments read at the time the code reads them, uint32 wrap where caller-supplied sizes enter. Proved for ALL "
+            "heaps satisfying the representation invariant (lock count = number of referring variables + other holders; "
+            "every variable inside its blob's used area; used <= capacity), any number of variables and any extra lock "
+            "holders: (1) cow keeps every variable's contents and every doubly-held blob byte-for-byte, whether it returns "
+            "or throws, and leaves the target sole owner at the blob's end with the requested room; (2) lowAppend (behind "
+            "append/push_back/assign(char*)) makes the target old++source for ANY source pointer incl. the target's own "
+            "storage under the Locker, leaves every other variable unchanged, never reads outside a live object, and a "
+            "throw changes no contents; (3) PARTIAL: per-operation and per-sequence refinement to independent byte lists "
+            "(C48_step/run_refines_values_partial) for assign (incl. self), append of external bytes, push_back, chop, "
+            "clear, reserveSpace, reserveCapacity and all const operations; append(SBuf)/own-pointer append, assign(ptr,n), "
+            "consume, substr, trim, setAt, toLower/Upper, reserve(req), rawAppend*, c_str are modelled and differentially "
+            "tested but not yet lifted to that theorem; (4) the full statement is REFUTED for the code as it is: four "
+            "witness theorems (chop/substr length wrap, rawAppendFinish(p,0) truncating a shared blob, rawAppendStart "
+            "beyond 2^32 not throwing, case-insensitive order of byte 0xff), all confirmed on the real code and recorded as "
+            "known findings. The model is tied to the code by a differential run of the extracted model against "
+            "SBuf.cc/MemBlob.cc compiled from the working tree under ASan+UBSan (return value, contents of every variable "
+            "and off/len/blob size/capacity/lock count of the target after every operation), and the code's answers are "
+            "checked against an independent Python bytes shadow (std::string semantics).",
+    "note": "Trusted: Coq kernel, extraction, gen/gen_sbuf.cc (SBuf::maxSize/npos and the <cctype> maps on char values), "
+            "harness/h_sbuf.cc (its memAllocBuf wrapper uses the size classes of src/mem/old_api.cc; the prototype store "
+            "is reset between sequences), ml/run_sbuf.ml glue. The allocator is a Section variable (contract n <= "
+            "alloc_cap n used only for the room guarantee). The hand-written SbufModel.v is validated against the code "
+            "only on the generated sequences (6k quick / 100k thorough). Print Assumptions: closed under the global "
+            "context for all 10 theorems.",
+    "technique": "Coq proof (representation invariant with ghost lock holders, per-method effect lemmas, refinement lifted to "
+                 "operation sequences by induction; vm_compute witnesses and 256-entry table sweep) + extracted-model "
+                 "differential correspondence under ASan + Python shadow oracle",
 }
 NPOS = 4294967295
 MAXSIZE = 0xfffffff
@@ -77,10 +91,6 @@ def clip(v, pos, n):
     if n == NPOS or n > len(v) - pos:
         n = len(v) - pos
     return v[pos:pos + n]
-
-
-class Threw(Exception):
-    pass
 
 
 def spec_step(v, f):
